@@ -10,18 +10,21 @@
 (*   refund dust       -whole loya accumulated from 10^-6 remainders               *)
 (* every other operation: supply unchanged.                                        *)
 EXTENDS Num, Integers, Sequences, FiniteSets
-CONSTANTS Rate, MsPerDay          \* Num: loya per day, milliseconds per day
+CONSTANTS Rate, MsPerDay,         \* Num: loya per day, milliseconds per day
+          NsPerMs                 \* Num: time resolution units per millisecond (10^6 on the chain)
 
 VARIABLES supply,    \* total supply (Num)
           minit,     \* minting started by governance
           hasprev,   \* a previous block time has been recorded
-          prev,      \* that time (ms)
+          prev,      \* that time (ns)
           tbr,       \* balance of the reporter reward pool
-          lnow,      \* current block time (ms)
+          lnow,      \* current block time (ns)
           ivals      \* history: sequence of [t0, minted] = what was minted since t0
 lvars == <<supply, minit, hasprev, prev, tbr, lnow>>
 
-Provision(t) == IF minit /\ hasprev THEN (Rate ** (t -- prev)) // MsPerDay ELSE Zero
+\* times are in NANOSECONDS (consensus block-time resolution); the provision counts whole elapsed milliseconds
+ElapsedMs(t) == (t -- prev) // NsPerMs
+Provision(t) == IF minit /\ hasprev THEN (Rate ** ElapsedMs(t)) // MsPerDay ELSE Zero
 Quarter(x) == x // N(4)
 AddMinted(iv, x) == [i \in DOMAIN iv |-> [t0 |-> iv[i].t0, minted |-> iv[i].minted ++ x]]
 
@@ -57,7 +60,7 @@ KeepIvals == UNCHANGED ivals
 (* (stated over explicit arguments: under the big-number backend TLC must evaluate      *)
 (* arithmetic inside an action - primed expressions and invariants are evaluated        *)
 (* without caching of lazily passed arguments, which is exponential for limb recursion) *)
-InflationBoundAt(iv, nw) == \A i \in DOMAIN iv : (iv[i].minted ** MsPerDay) \preceq (Rate ** (nw -- iv[i].t0))
+InflationBoundAt(iv, nw) == \A i \in DOMAIN iv : (iv[i].minted ** (MsPerDay ** NsPerMs)) \preceq (Rate ** (nw -- iv[i].t0))
 NoMintBeforeStartAt(mi, iv) == (~mi) => \A i \in DOMAIN iv : IsZero(iv[i].minted)
 InflationBound == InflationBoundAt(ivals, lnow)
 NoMintBeforeStart == NoMintBeforeStartAt(minit, ivals)
